@@ -5,7 +5,8 @@
     property text as a boolean over that trace and never looks at the model.
     [check_case] = bit0 (model <> implementation) + bit1 (monitor fails on the
     implementation's trace) + 4 * clause + 1024 * step. *)
-From Srtla Require Import Base Constants Wire WireSpec Conn Run_Core Run_C15 Uplink.
+From Srtla Require Import Base Constants Wire WireSpec Conn Run_Core Run_C15.
+From Srtla Require Export Uplink.
 
 (** ---- observation ---- *)
 Definition phase_obs (p : phase) : list Z :=
@@ -180,13 +181,28 @@ Fixpoint fam_blocks (n : nat) (len salt k : Z) (target now0 : Z) (classic : bool
            :: fam_blocks m len salt (k + 1) target now0 classic s0
   end.
 
+(** compact history: after each op only the links whose observation changed are listed *)
+Inductive dlink := DL (i : nat) (l : lobs) (x : list Z).
+Record dobs := { d_links : list dlink; d_fwd : list wd; d_panic : bool }.
+Definition patch (prev : uobs) (d : dobs) : uobs :=
+  {| u_links := fold_left (fun l e => match e with DL i lo _ => upd i (fun _ => lo) l end) (d_links d) (u_links prev);
+     u_xs := fold_left (fun l e => match e with DL i _ x => upd i (fun _ => x) l end) (d_links d) (u_xs prev);
+     u_fwd := d_fwd d; u_panic := d_panic d |}.
+Fixpoint expand_steps (prev : uobs) (steps : list (uop * dobs)) : list (uop * uobs) :=
+  match steps with
+  | [] => []
+  | (o, d) :: t => let ob := patch prev d in (o, ob) :: expand_steps ob t
+  end.
+
 Inductive case :=
 | CHist (h : hist)
+| CHistD (ids : list Z) (init : uobs) (steps : list (uop * dobs))
 | CFam (len salt k0 : Z) (ids : list Z) (pre : list uop) (target now0 : Z) (classic : bool) (blocks : list Z).
 
 Definition check_case (c : case) : N :=
   match c with
   | CHist h => check_hist h
+  | CHistD ids init steps => check_hist {| h_ids := ids; h_init := init; h_steps := expand_steps init steps |}
   | CFam len salt k0 ids pre target now0 classic blocks =>
     let mb := fam_blocks (length blocks) len salt k0 target now0 classic (run_pre ids pre) in
     let bad := first_bad (fun p => fst p =? snd p) (combine mb blocks) 0 in
